@@ -78,6 +78,9 @@ def _render(g, order=0):
         for it in imps:
             out.append("import %s%s from %s;" % ("type " if it[0] == "T" else "", it[0], it[1]))
             lines[(m, it[0], it[1])] = len(out)
+        host = (g.get("host") or {}).get(m, "none")
+        if host != "none":
+            out.append("import tag from %s;" % host)
         imports_x = any(it[0] == "x" for it in imports(g, m))
         bare = m == "c" and g.get("cbare")
         if m == "main":
@@ -105,6 +108,8 @@ def _render(g, order=0):
             out.append("pub fn main() { println(\"c.main\"); }")
         elif m in ("b", "c"):
             sees_y = "println(\"b.y\", y); " if m == "b" and any(it[0] == "y" for it in imports(g, m)) else ""
+            if host != "none":
+                sees_y += "println(\"%s.tag\", tag()); " % m
             out.append("pub fn p%s() { println(\"%s.p\", x, hist.len()); %s%s%sh(); }" % (m, m, sees_y, "f(); " if sees_f else "", other))
             # a library's own main (pub when its x is pub) is never run: only the entry module's main is
             out.append("%sfn main() { println(\"%s.main\"); }" % ("pub " if g["x"][m] == "pub" else "", m))
@@ -120,6 +125,8 @@ def _render(g, order=0):
             body.append("println(\"main.x\", x);")
             if any(it[0] == "y" for it in imports(g, m)):
                 body.append("println(\"main.y\", y);")
+            if host != "none":
+                body.append("println(\"main.tag\", tag());")
             if sees_f:
                 body.append("f();")
             if any(it[0] == "T" for it in imports(g, m)):
@@ -136,6 +143,8 @@ def expected_text(out):
             ls.append("c.p bare")
         elif l[1] == "h":
             ls.append("%s.h" % l[0])
+        elif l[1] == "tag":
+            ls.append("%s.tag %s" % (l[0], l[2]))
         elif l[1] == "y":
             ls.append("%s.y %d" % (l[0], l[2]))
         elif l[1] in ("x", "t"):
